@@ -32,6 +32,17 @@ pub extern "C" fn plug_add(a: u64, b: u64) -> u64 {
 }
 "#;
 
+const PLUGB: &str = r#"#[inline(never)]
+fn plugb_inner(a: u64, b: u64) -> u64 {
+    let d = a * 100 + b;
+    d + 7
+}
+#[no_mangle]
+pub extern "C" fn plugb_add(a: u64, b: u64) -> u64 {
+    plugb_inner(a, b)
+}
+"#;
+
 const HOST: &str = r#"use std::ffi::{c_char, c_int, c_void, CString};
 extern "C" {
     fn dep_mul(a: u64, b: u64) -> u64;
@@ -40,30 +51,46 @@ extern "C" {
     fn dlclose(handle: *mut c_void) -> c_int;
 }
 #[inline(never)]
-fn load_and_call(path: &CString, a: u64, b: u64) -> u64 {
+fn open(path: &CString) -> *mut c_void {
+    let h = unsafe { dlopen(path.as_ptr(), 2) };
+    assert!(!h.is_null());
+    h
+}
+#[inline(never)]
+fn call(h: *mut c_void, sym: &str, a: u64, b: u64) -> u64 {
     unsafe {
-        let h = dlopen(path.as_ptr(), 2);
-        assert!(!h.is_null());
-        let name = CString::new("plug_add").unwrap();
+        let name = CString::new(sym).unwrap();
         let f: extern "C" fn(u64, u64) -> u64 = std::mem::transmute(dlsym(h, name.as_ptr()));
-        let r = f(a, b);
-        dlclose(h);
-        r
+        f(a, b)
     }
 }
 #[inline(never)]
 fn before_load(x: u64) -> u64 {
     x + 1
 }
+#[inline(never)]
+fn after_reload(x: u64) -> u64 {
+    x + 2
+}
 fn main() {
     let dir = std::env::args().nth(1).unwrap();
     let path = CString::new(format!("{dir}/libplug.so")).unwrap();
+    let pathb = CString::new(format!("{dir}/libplugb.so")).unwrap();
     let x = unsafe { dep_mul(6, 7) };
     let x = before_load(x);
-    let y = load_and_call(&path, 10, 20);
-    let z = load_and_call(&path, 1, 2);
+    let h = open(&path);
+    let y = call(h, "plug_add", 10, 20);
+    unsafe { dlclose(h) };
+    // another library takes the range the first one had, then the first one comes back elsewhere
+    let hb = open(&pathb);
+    let v = call(hb, "plugb_add", 3, 4);
+    let h2 = open(&path);
+    let x = after_reload(x);
+    let z = call(h2, "plug_add", 1, 2);
+    unsafe { dlclose(h2) };
+    unsafe { dlclose(hb) };
     let w = unsafe { dep_mul(2, 3) };
-    println!("{x} {y} {z} {w}");
+    println!("{x} {y} {v} {z} {w}");
 }
 "#;
 
@@ -72,14 +99,14 @@ fn build() -> Result<String, String> {
     std::fs::create_dir_all(&dir).map_err(|e| e.to_string())?;
     let d = dir.display().to_string();
     let mut fresh = true;
-    for (name, text) in [("dep.rs", DEP), ("plug.rs", PLUG), ("host.rs", HOST)] {
+    for (name, text) in [("dep.rs", DEP), ("plug.rs", PLUG), ("plugb.rs", PLUGB), ("host.rs", HOST)] {
         let p = dir.join(name);
         if std::fs::read_to_string(&p).map(|t| t != text).unwrap_or(true) {
             std::fs::write(&p, text).map_err(|e| e.to_string())?;
             fresh = false;
         }
     }
-    if fresh && dir.join("host").exists() && dir.join("libdep.so").exists() && dir.join("libplug.so").exists() {
+    if fresh && dir.join("host").exists() && dir.join("libdep.so").exists() && dir.join("libplug.so").exists() && dir.join("libplugb.so").exists() {
         return Ok(d);
     }
     let rustc = |args: &[&str]| -> Result<(), String> {
@@ -88,6 +115,7 @@ fn build() -> Result<String, String> {
     };
     rustc(&["--crate-type", "cdylib", "-o", &format!("{d}/libdep.so"), &format!("{d}/dep.rs")])?;
     rustc(&["--crate-type", "cdylib", "-o", &format!("{d}/libplug.so"), &format!("{d}/plug.rs")])?;
+    rustc(&["--crate-type", "cdylib", "-o", &format!("{d}/libplugb.so"), &format!("{d}/plugb.rs")])?;
     rustc(&["-L", &d, "-l", "dylib=dep", "-C", &format!("link-arg=-Wl,-rpath,{d}"), "-o", &format!("{d}/host"), &format!("{d}/host.rs")])?;
     Ok(d)
 }
@@ -100,7 +128,7 @@ fn sym_offset(lib: &str, name: &str) -> Option<u64> {
 
 pub fn part_shlib(tier: Tier) -> Part {
     let mut part = Part::new("c18_shared_libraries");
-    part.rule = "host program + cdylib linked at startup + cdylib loaded by dlopen, closed and loaded again (the program calls dep_inner(6,7), plug_inner(10,20), plug_inner(1,2), dep_inner(2,3)); breakpoints on the two library functions requested before start / at a stop in main before the load / by file:line after the first load; every stop must be the next of those calls that has a breakpoint, with these arguments, the reported function and line, a pc inside the mapping of the right library at the function's ELF offset, a backtrace that leads through the library frames to host::main; `sharedlib info` = the objects of /proc/<pid>/maps at every stop; the program prints its native output".into();
+    part.rule = "host program + cdylib linked at startup + cdylib loaded by dlopen, closed and loaded again (the program calls dep_inner(6,7), plug_inner(10,20), plugb_inner(3,4) of a second plugin that takes the freed range, plug_inner(1,2) of the first plugin loaded again at another address, dep_inner(2,3)); breakpoints on the two library functions requested before start / at a stop in main before the load / by file:line after the first load; every stop must be the next of those calls that has a breakpoint, with these arguments, the reported function and line, a pc inside the mapping of the right library at the function's ELF offset, a backtrace that leads through the library frames to host::main; `sharedlib info` = the objects of /proc/<pid>/maps at every stop; the program prints its native output".into();
     let dir = match build() {
         Ok(d) => d,
         Err(e) => {
@@ -110,7 +138,8 @@ pub fn part_shlib(tier: Tier) -> Part {
     };
     let host = format!("{dir}/host");
     let native = std::process::Command::new(&host).arg(&dir).output().map(|o| String::from_utf8_lossy(&o.stdout).to_string()).unwrap_or_default();
-    let calls: [(&str, u64, u64); 4] = [("dep_inner", 6, 7), ("plug_inner", 10, 20), ("plug_inner", 1, 2), ("dep_inner", 2, 3)];
+    let calls: [(&str, u64, u64); 5] = [("dep_inner", 6, 7), ("plug_inner", 10, 20), ("plugb_inner", 3, 4), ("plug_inner", 1, 2), ("dep_inner", 2, 3)];
+    let after_reload_line = HOST.lines().position(|l| l.contains("let x = after_reload(x)")).map(|i| i as u64 + 1).unwrap_or(0);
     let before_load_line = HOST.lines().position(|l| l.contains("let x = before_load(x)")).map(|i| i as u64 + 1).unwrap_or(0);
     let bp_fn = |n: &str| json!({"op": "break_fn_deferred", "name": n});
     let bp_line_main = json!({"op": "break_line", "file": "host.rs", "line": before_load_line});
@@ -129,6 +158,9 @@ pub fn part_shlib(tier: Tier) -> Part {
         H { name: "both-at-stop-before-load", pre: vec![bp_line_main.clone()], at_main: vec![bp_fn("plug_inner"), bp_fn("dep_inner")], active: vec![("plug_inner", 1), ("dep_inner", 1)] },
         H { name: "plugin-by-line-before-start", pre: vec![json!({"op": "break_line_deferred", "file": "plug.rs", "line": 3})], at_main: vec![], active: vec![("plug_inner", 0)] },
     ];
+    // breakpoints requested after the first library came back at another address
+    hs.push(H { name: "plugin-after-reload", pre: vec![json!({"op": "break_line", "file": "host.rs", "line": after_reload_line})], at_main: vec![bp_fn("plug_inner"), bp_fn("dep_inner")], active: vec![("plug_inner", 3), ("dep_inner", 3)] });
+    hs.push(H { name: "second-plugin-before-start", pre: vec![bp_fn("plugb_inner")], at_main: vec![], active: vec![("plugb_inner", 0)] });
     if tier == Tier::Thorough {
         hs.push(H { name: "dep-by-line-at-stop", pre: vec![bp_line_main.clone()], at_main: vec![json!({"op": "break_line_deferred", "file": "dep.rs", "line": 3})], active: vec![("dep_inner", 1)] });
         hs.push(H { name: "plugin-at-stop-before-load", pre: vec![bp_line_main.clone()], at_main: vec![bp_fn("plug_inner")], active: vec![("plug_inner", 1)] });
@@ -200,7 +232,7 @@ pub fn part_shlib(tier: Tier) -> Part {
                 part.violate("C18:shlib:line-wrong-in-library", format!("[{}] stop in {f} reported at line {line}, the first statement is line 3", h.name), replay.clone());
             }
             // address inside the right mapping at the right offset
-            let lib = if f == "dep_inner" { "libdep.so" } else { "libplug.so" };
+            let lib = if f == "dep_inner" { "libdep.so" } else if f == "plugb_inner" { "libplugb.so" } else { "libplug.so" };
             let pc = o["res"]["pc"].as_u64().unwrap_or(0);
             let libs = run.obs.get(i + 2).map(|l| l["res"].clone()).unwrap_or(json!({}));
             let map = libs["maps"].as_array().and_then(|m| m.iter().find(|m| m["path"].as_str().map(|p| p.ends_with(lib)).unwrap_or(false)).cloned());
@@ -231,7 +263,7 @@ pub fn part_shlib(tier: Tier) -> Part {
             }
             // backtrace through the library back to main
             let bt: Vec<String> = o["bt"].as_array().map(|b| b.iter().map(|f| f["fn"].as_str().unwrap_or("?").to_string()).collect()).unwrap_or_default();
-            let want_chain: Vec<&str> = if f == "dep_inner" { vec!["dep_inner", "dep_mul", "main"] } else { vec!["plug_inner", "plug_add", "load_and_call", "main"] };
+            let want_chain: Vec<&str> = if f == "dep_inner" { vec!["dep_inner", "dep_mul", "main"] } else if f == "plugb_inner" { vec!["plugb_inner", "plugb_add", "call", "main"] } else { vec!["plug_inner", "plug_add", "call", "main"] };
             let mut pos = 0;
             for w in &want_chain {
                 match bt[pos..].iter().position(|b| b.ends_with(w)) {
